@@ -126,8 +126,11 @@ pub(super) fn execute_aggregate<'a, S: GraphSnapshot + 'a>(
 
                         if saw_float {
                             Value::Float(float_sum)
+                        } else if let Ok(exact) = i64::try_from(int_sum) {
+                            Value::Int(exact)
                         } else {
-                            Value::Int(int_sum as i64)
+                            // Same rule as `+`: an integer result that leaves i64 becomes a float.
+                            Value::Float(float_sum)
                         }
                     }
                     AggregateFunction::SumDistinct(expr) => {
@@ -165,8 +168,11 @@ pub(super) fn execute_aggregate<'a, S: GraphSnapshot + 'a>(
 
                         if saw_float {
                             Value::Float(float_sum)
+                        } else if let Ok(exact) = i64::try_from(int_sum) {
+                            Value::Int(exact)
                         } else {
-                            Value::Int(int_sum as i64)
+                            // Same rule as `+`: an integer result that leaves i64 becomes a float.
+                            Value::Float(float_sum)
                         }
                     }
                     AggregateFunction::Avg(expr) => {
